@@ -346,6 +346,11 @@ def unobservable_cases():
             continue
         for p, ok in (("n", False), ("k", True), ("i", True)):
             yield (f"{name}/{p}", HEAD + "    VObj { id: t; " + f.format(p=p) + " }\n}\n", ok)
+    # a derived class: inherited properties, an own property announced by a signal of the base class, by an own
+    # signal, and by none
+    for p, ok in (("i", True), ("n", False), ("k", True), ("w", True), ("x", True), ("y", False)):
+        yield (f"derived/named/{p}", HEAD + "    VSub { id: sb }\n    VObj { id: t; ri: sb." + p + " }\n}\n", ok)
+        yield (f"derived/implicit-this/{p}", HEAD + "    VSub { id: t; ri: " + p + " }\n}\n", ok)
 
 
 def no_notify_sweep():
